@@ -253,6 +253,15 @@ func RunCheck(opts CheckOpts) int {
 			defer pw.Done()
 			psem <- struct{}{}
 			defer func() { <-psem }()
+			if o.Cover && o.Pre != nil {
+				// call cover: only a satisfiable pre-state with an unsatisfiable post-state is a vacuous contract
+				if r := Prove(o.Name+".pre", o.Pre, False, nil, 10, false); r.Status != "sat" {
+					o.Res = &ProveResult{Status: "sat", Solver: r.Solver, Ms: r.Ms, Output: "pre-state not satisfiable (path was infeasible before the call)"}
+					return
+				}
+				o.Res = Prove(o.Name, o.Hyps, False, nil, 10, false)
+				return
+			}
 			if o.Cover {
 				// satisfiable hypotheses expected; Prove checks hyps ⊨ false
 				o.Res = Prove(o.Name, o.Hyps, False, nil, 10, false)
